@@ -102,6 +102,26 @@ pub fn run_c01(out: &mut Out, seed: u64, thorough: bool) {
                 }
             }
         }
+        // boundary operand pairs for every register pair and both carry-ins: sums of 0xFF / 0x100,
+        // equal operands, extremes
+        for pair in 0..16u8 {
+            for k in 0..24u32 {
+                let x = match k % 12 { 0 => 0u8, 1 => 1, 2 => 0x7F, 3 => 0x80, 4 => 0xFE, 5 => 0xFF, 6 => 0x55, 7 => 0x0F, _ => rng.byte() };
+                let y = match k / 12 { 0 => 0xFFu8.wrapping_sub(x), _ => 0u8.wrapping_sub(x) };
+                for c in 0..2u8 {
+                    let (rd, rs) = ((pair & 3) as usize, ((pair >> 2) & 3) as usize);
+                    let mut regs = rand_regs(&mut rng, false);
+                    regs[4] = (regs[4] & 0xFE) | c;
+                    if rd < 3 {
+                        regs[rd] = x;
+                    }
+                    if rs < 3 && rs != rd {
+                        regs[rs] = y;
+                    }
+                    one(out, &mut rng, (page << 4) | pair, None, regs, false);
+                }
+            }
+        }
         let n = if thorough { 4096 } else { 512 };
         for pair in 0..16u8 {
             for _ in 0..(n / 16) {
@@ -192,6 +212,22 @@ fn c04_program(rng: &mut Rng, with_di: bool) -> (Vec<u8>, u8) {
             _ => vec![0x30 + r],                                     // COM
         };
         body.push(ins);
+    }
+    // one instruction of every register-register / unary page, so that the end word and the `int:`
+    // word of every page are visited with a request pending
+    let mut tour: Vec<Vec<u8>> = vec![];
+    for page in [0x6u8, 0x7, 0x8, 0x9, 0xA, 0xB, 0xC, 0xD] {
+        tour.push(vec![(page << 4) + ((rng.byte() % 3) << 2) + rng.byte() % 3]);
+    }
+    for op in [0x30u8, 0x34, 0x38, 0x3C, 0x40, 0x44, 0x48, 0x50, 0x04] {
+        tour.push(vec![op + rng.byte() % 3]);
+    }
+    tour.push(vec![0x21 + rng.byte() % 7, 0x00]); // a conditional relative jump to the next instruction
+    while !tour.is_empty() {
+        let i = rng.below(tour.len() as u64) as usize;
+        let at = 1 + rng.below(body.len() as u64) as usize;
+        let ins = tour.swap_remove(i);
+        body.insert(at.min(body.len()), ins);
     }
     for (i, ins) in body.iter().enumerate() {
         if i as u64 == enable_at {
